@@ -73,6 +73,9 @@ func describe(c *Case) (d any) {
 }
 
 func witnessOf(c *Case, stack string) Witness {
+	if c.history != "" && c.verdict == Violated {
+		c.reason += " [the case was preceded, in the same process, by a hostile call: " + c.history + "]"
+	}
 	return Witness{Property: c.Prop, Tier: c.Tier, Seed: c.Seed, Index: c.I, Class: c.class, Reason: c.reason,
 		Detail: c.failDetail, Case: describe(c), Stack: stack}
 }
@@ -101,6 +104,13 @@ func RunWorker(m *Monitor, tier string, seed, a, b int64, out string) error {
 		jf.WriteAt(jb[:], 0)
 		c := newCase(m, tier, seed, i)
 		c.WantDetail = i == a || i == sampleAt
+		if BeforeCase != nil && m.Custom == nil {
+			if pr := NewRng(seed, m.ID+"/history", i); pr.P(0.05) {
+				what := BeforeCase(m.ID, pr)
+				c.Tag("preceded-by-hostile-call")
+				c.history = what
+			}
+		}
 		stack := runOne(m, c)
 		res.Evaluations++
 		res.Calls += c.calls
@@ -172,6 +182,11 @@ func ReplayOne(m *Monitor, tier string, seed, i int64) (Witness, Verdict) {
 	}
 	c := newCase(m, tier, seed, i)
 	c.WantDetail = true
+	if BeforeCase != nil && m.Custom == nil {
+		if pr := NewRng(seed, m.ID+"/history", i); pr.P(0.05) {
+			c.history = BeforeCase(m.ID, pr)
+		}
+	}
 	stack := runOne(m, c)
 	w := witnessOf(c, stack)
 	if c.verdict == Held {
